@@ -51,6 +51,7 @@ type svcPlan struct {
 	meta    []byte
 	fetches int
 	peek    types.ServiceID // service whose info is read and stored (0: none)
+	ejects  []types.ServiceID // zombie services this one ejects (before its transfers)
 }
 
 type scenario struct {
@@ -65,7 +66,10 @@ type scenario struct {
 	eta      types.EntropyBuffer
 	maxIn    map[types.ServiceID]int
 	desc     string
+	zombies  map[types.ServiceID]types.ServiceID // ejectable account -> the service that may eject it
 }
+
+var zombieLookup = types.LookupMetaMapkey{Hash: h256([]byte("zombie-code")), Length: 40}
 
 func encodeMetaCode(code []byte) []byte {
 	mc := types.MetaCode{Metadata: types.ByteSequence("verif"), Code: types.ByteSequence(code)}
@@ -139,6 +143,11 @@ func buildProgram(p *svcPlan, nCores int, all []types.ServiceID) []byte {
 		a.LoadImm64(9, uint64(all[0]))
 		a.Ecalli(15)
 	}
+	for _, z := range p.ejects {
+		a.LoadImm64(7, uint64(z))
+		a.LoadImm64(8, d.Put(zombieLookup.Hash[:]))
+		a.Ecalli(21)
+	}
 	for i, x := range p.xfers {
 		memo := make([]byte, 128)
 		copy(memo, u32le(uint32(p.id)))
@@ -175,6 +184,16 @@ func genScenario(t *sim.Tape) *scenario {
 	}
 	heavy := t.Prob(2, 3, "heavy") // arm in which one receiver gets more than a dozen transfers from several senders
 	target := pick("target")
+	// ejectable accounts: transfers sent to them in the round in which they are ejected are dropped
+	sc.zombies = map[types.ServiceID]types.ServiceID{}
+	var zombieIDs []types.ServiceID
+	if t.Prob(1, 2, "zombies") {
+		for z := 0; z < 1+t.Choose(2, "nzombies"); z++ {
+			zid := types.ServiceID(300001 + z*5)
+			sc.zombies[zid] = pick("ejector")
+			zombieIDs = append(zombieIDs, zid)
+		}
+	}
 	for i, id := range ids {
 		p := &svcPlan{id: id, assign: -1}
 		k := t.Choose(6, "nx")
@@ -189,7 +208,15 @@ func genScenario(t *sim.Tape) *scenario {
 			if dest == id {
 				dest = ids[(i+1)%n]
 			}
+			if len(zombieIDs) > 0 && t.Prob(1, 4, "to_zombie") {
+				dest = zombieIDs[t.Choose(len(zombieIDs), "which_zombie")]
+			}
 			p.xfers = append(p.xfers, xfer{dest: dest, amt: uint64(1 + t.Choose(50, "amt")), gas: uint64(150 + t.Choose(4, "tgas")*100)})
+		}
+		for _, zid := range zombieIDs {
+			if sc.zombies[zid] == id && t.Prob(3, 4, "does_eject") {
+				p.ejects = append(p.ejects, zid)
+			}
 		}
 		p.yield = t.Bool("yield")
 		if t.Bool("peek") {
@@ -236,7 +263,7 @@ func genScenario(t *sim.Tape) *scenario {
 			maxIn = v
 		}
 	}
-	sc.desc = fmt.Sprintf("services=%d reports=%d max_transfers_to_one_receiver=%d always=%d heavy=%v", n, nRep, maxIn, len(sc.always), heavy)
+	sc.desc = fmt.Sprintf("services=%d reports=%d max_transfers_to_one_receiver=%d always=%d heavy=%v ejectable=%d", n, nRep, maxIn, len(sc.always), heavy, len(sc.zombies))
 	return sc
 }
 
@@ -261,6 +288,14 @@ func (sc *scenario) mkInput() accumulation.OuterAccumulationInput {
 			StorageDict: types.Storage{}}
 		ac.ServiceInfo = types.ServiceInfo{CodeHash: p.codeH, Balance: 1 << 40, MinItemGas: 1, MinMemoGas: 0, Items: 2, Bytes: types.U64(81 + len(p.meta))}
 		ps.ServiceAccounts[p.id] = ac
+	}
+	for zid, ejector := range sc.zombies {
+		// code hash = E_32(ejector), exactly one lookup entry (2 items) that was forgotten long ago
+		ac := types.ServiceAccount{PreimageLookup: types.PreimagesMapEntry{}, StorageDict: types.Storage{},
+			LookupDict: types.LookupMetaMapEntry{zombieLookup: types.TimeSlotSet{3, 7}}}
+		ac.ServiceInfo = types.ServiceInfo{Balance: 777, MinItemGas: 1, MinMemoGas: 0, Items: 2, Bytes: types.U64(81 + zombieLookup.Length)}
+		copy(ac.ServiceInfo.CodeHash[:], u32le(uint32(ejector)))
+		ps.ServiceAccounts[zid] = ac
 	}
 	reports := make([]types.WorkReport, len(sc.reports))
 	copy(reports, sc.reports)
@@ -485,6 +520,24 @@ func runOne(tt *testing.T, r *sim.Run) {
 	}
 	if maxIn >= 13 {
 		r.Count("probe:receiver_with_more_than_a_dozen_transfers", 1)
+	}
+	for zid := range sc.zombies {
+		gone := true
+		for _, l := range base.lines {
+			if strings.HasPrefix(l, fmt.Sprintf("acct %d:", zid)) {
+				gone = false
+			}
+		}
+		if gone {
+			r.Count("probe:account_ejected_in_round", 1)
+			for _, p := range sc.svcs {
+				for _, x := range p.xfers {
+					if x.dest == zid {
+						r.Count("probe:transfer_to_account_ejected_in_same_round", 1)
+					}
+				}
+			}
+		}
 	}
 	workersOpt := []int{1, 2, 3, 16}
 	for i := 0; i < k && !r.Violated(); i++ {
